@@ -421,3 +421,112 @@ Definition C10d_prop_round (c : dcfg) (k : dcache) (evs : list ev) : option stri
   | None => None
   | Some t => orelse_s (C10d_round c t evs) (C10d_handoff c t evs)
   end.
+
+(* ================= C16, converse of clause 4: a response that names a change causes a request ================= *)
+(* the label / annotation part of the response asks for something the object sent does not show (a new key,
+   also one with the empty string as value; another value; a null for a present key), the sync went through:
+   then a write to the target was sent (the status write may end the sync on a 404 / 409) *)
+Definition maps_ask_change (sent : json) (r : dresp) : bool :=
+  negb (map_is_noop (dr_labels r) (get_labels sent) && map_is_noop (dr_annotations r) (annots_of sent)).
+
+Definition C16_request_when_changed (c : dcfg) (parent : json) (evs : list ev) (res : sync_result) : option string :=
+  match round_hook_d evs, res with
+  | Some (_, body, r), SDone =>
+      let sent := jget "object" (obj_map body) in
+      if maps_ask_change sent r && negb (existsb (is_target_write c parent) (after_hook evs))
+      then Some "no-request-although-response-names-a-change" else None
+  | _, _ => None
+  end.
+
+(* ================= C03 on the decorator: what the hook is shown ================= *)
+Definition find_by_relative_name (pns n : string) (objs : list json) : option json :=
+  find (fun o => String.eqb (relative_name pns o) n) objs.
+
+Definition C03d_group (c : dcfg) (k : dcache) (sent : json) (kc : child_cfg) (shown : amap) : option string :=
+  let pns := get_ns sent in
+  let objs := cached_d k (ch_res kc) in
+  orelse_s
+    (* everything shown is a cached object that the target controls and that carries our marker *)
+    (first_some (fun kv =>
+       let o := snd kv in
+       if negb (existsb (fun o' => jeqb o' o) objs) then Some "hook-saw-object-not-in-cache" else
+       if negb (String.eqb (fst kv) (relative_name pns o)) then Some "hook-saw-object-under-wrong-name" else
+       if negb (controlled_by o (get_uid sent)) then Some "hook-saw-object-it-does-not-control" else
+       if negb (has_marker c o) then Some "hook-saw-object-without-own-marker" else
+       if negb (visible_d sent o) then Some "hook-saw-object-outside-target-namespace" else None) shown)
+    (* every such cached object is shown *)
+    (first_some (fun o =>
+       if visible_d sent o && controlled_by o (get_uid sent) && has_marker c o then
+         match alookup (relative_name pns o) shown with
+         | Some o' => if jeqb o' o then None else Some "owned-attachment-shown-with-other-content"
+         | None => Some "owned-attachment-missing-from-hook"
+         end
+       else None) objs).
+
+Definition C03d_round (c : dcfg) (k : dcache) (evs : list ev) : option string :=
+  first_some (fun e =>
+    match e_call e with
+    | CHook HCustomize _ => None
+    | CHook _ body =>
+        let sent := jget "object" (obj_map body) in
+        match jget "attachments" (obj_map body) with
+        | JObj groups =>
+            orelse_s
+              (first_some (fun kc =>
+                 match alookup (gvk_text (ch_api_version kc) (ch_kind kc)) groups with
+                 | Some (JObj shown) => C03d_group c k sent kc shown
+                 | _ => Some "group-missing" end) (dc_attachments c))
+              (orelse_s
+                 (first_some (fun g => if existsb (fun kc => String.eqb (gvk_text (ch_api_version kc) (ch_kind kc)) (fst g)) (dc_attachments c)
+                                       then None else Some "group-of-undeclared-kind") groups)
+                 (if jeqb (JObj groups) (expected_attachments c k sent) then None else Some "attachments-map-differs-from-marked-controlled-set"))
+        | _ => Some "attachments-map-missing"
+        end
+    | _ => None
+    end) evs.
+
+(* ================= C12 on the decorator: the worker step ================= *)
+Definition hook_failed (e : ev) : bool :=
+  match e_call e, e_ans e with
+  | CHook HCustomize _, _ => false
+  | CHook _ _, AHook ans => match decode_decorator ans with Some _ => false | None => true end
+  | CHook _ _, _ => true
+  | _, _ => false
+  end.
+
+Definition C12d_round (key : string) (evs : list ev) (res : sync_result) (qs : list (string * string * Z)) : option string :=
+  match res with
+  | SPanic => Some "panic"
+  | _ =>
+      if negb (qhas qs "Done" key) then Some "work-item-not-marked-done" else
+      if qhas qs "AddRateLimited" key && qhas qs "Forget" key then Some "forgotten-and-requeued" else
+      if negb (qhas qs "AddRateLimited" key) && negb (qhas qs "Forget" key) then Some "neither-requeued-nor-forgotten" else
+      (* a hard failure anywhere surfaces as an error with back-off *)
+      if (existsb hard_failure evs || existsb hook_failed evs) && negb (qhas qs "AddRateLimited" key)
+      then Some "failure-swallowed-without-requeue" else
+      (* resyncAfterSeconds > 0 in an accepted answer: a delayed requeue of the target, whatever follows *)
+      match round_hook_d evs with
+      | Some (_, body, r) =>
+          if positive_number (dr_resync r) then
+            let tkey := queue_key (jget "object" (obj_map body)) in
+            if existsb (fun t => match t with (o, k', d) =>
+                                   String.eqb o "AddAfter" && String.eqb k' tkey &&
+                                   match dr_resync r with JInt z => Z.eqb d (z * 1000) | _ => Z.ltb 0 d end end) qs
+            then None else Some "resync-not-enqueued-after-asked-delay"
+          else if qhas qs "AddAfter" key then Some "delayed-requeue-nobody-asked-for" else None
+      | None => if qhas qs "AddAfter" key then Some "delayed-requeue-nobody-asked-for" else None
+      end
+  end.
+
+(* ================= C13 on the decorator: no answer panics the worker; a rejected answer causes no write ================= *)
+Definition C13d_round (evs : list ev) (res : sync_result) : option string :=
+  match res with
+  | SPanic => Some "panic"
+  | _ =>
+      match hook_events evs, round_hook_d evs with
+      | _ :: _, None =>
+          if existsb (fun e => match is_api e with Some q => is_write q | None => false end) (after_hook evs)
+          then Some "write-after-rejected-response" else None
+      | _, _ => None
+      end
+  end.
